@@ -485,7 +485,7 @@ func ruleDiskSetting(r *core.Reporter) {
 	p := r.P
 	const key = "min-space-required"
 	flags := registeredFlags(p)
-	if !r.Floor("registered command-line flags", len(flags), 40) {
+	if !r.Floor("registered command-line flags", len(flags), 20) {
 		return
 	}
 	if def, ok := flags[key]; !ok {
